@@ -318,6 +318,8 @@ class Generator:
         both(R.r11_for_underscore, log)
         if 'r12' in e.opts:
             both(R.r12_bool_or_assign, set(e.opts['r12'].split(',')), log)
+        if 'r14' in e.opts:
+            both(R.r14_digit_from_bytes, log)
         if 'rename' in e.opts:
             mp = dict(kv.split(':') for kv in e.opts['rename'].split(','))
             both(R.rename_idents, mp, log)
